@@ -99,12 +99,14 @@ func (prom *Prometheus) Config(ctx context.Context, cacheTTL time.Duration) (*Co
 	}
 
 	resultChan := make(chan queryResult)
+	verifTrace("enq", APIPathConfig, resultChan)
 	prom.queries <- queryRequest{
 		query:  configQuery{prom: prom, ctx: ctx, timestamp: time.Now(), cacheTTL: cacheTTL},
 		result: resultChan,
 	}
 
 	result := <-resultChan
+	verifTrace("got", APIPathConfig, resultChan)
 	if result.err != nil {
 		return nil, QueryError{err: result.err, msg: decodeError(result.err)}
 	}
